@@ -64,6 +64,8 @@ POOLS = [
     # column by what it is (the Unix-time, date and time columns), the others are floats
     [('LAGT', ['Lag', 'Time'], 'sec'), ('DAYC', ['Day', 'Count'], 'ddmmyy'), ('TOFF', ['Time', 'Offset'], 'hhmmss')],
 ]
+# pool 3: a rig that logs thousands of channels - the header and every data row are lines of more than 8192 / 16384 characters
+POOLS.append([('C%04d' % i, ['Chan', str(i)], 'm') for i in range(3000)])
 SEPS = [(' ', ' '), ('\t', ' '), ('  ', ' '), ('\t', '\t')]
 FLOATS = [('0', 0.0), ('8.50', 8.5), ('3131.07', 3131.07), ('269999', 269999.0), ('0.7', 0.7), ('10.00', 10.0), ('1.1976', 1.1976),
           ('1e-05', 1e-05), ('-2.5', -2.5)]       # what repr() / %g write for small and for negative numbers
@@ -446,6 +448,7 @@ def shards(tier):
     out = []
     for y0 in range(1955, 2051, 8):
         out.append({'part': 'dates', 'pool': 0, 'k': 1, 'years': [y for y in range(y0, min(y0 + 8, 2051))]})
+    out.append({'part': 'wide', 'pool': 3, 'k': 0})
     for pool in _pools(tier):
         for k in (1, 2, 3):
             if pool == 2 and tier == 'quick' and k == 3:
@@ -504,6 +507,14 @@ def _run_valid(res, case, directory=None):
 
 def run_shard(shard, tier):
     res = Result()
+    if shard['part'] == 'wide':
+        # rows just below and above 8192 characters (1000-1400 channels of 5-7 characters) and far above (3000 channels)
+        for k in (1000, 1150, 1200, 1250, 1400, 3000):
+            wide = [d[0] for d in POOLS[3][:k]]
+            for sep in (0, 1, 2):
+                for extra in ({}, {'crlf': 1}):
+                    _run_valid(res, dict({'pool': 3, 'decl': ['UTIM', 'DATE', 'TIME'] + wide, 'sep': sep, 'hdr': ['UTIM', 'DATE', 'TIME'] + wide, 'dv': [0, 5]}, **extra))
+        return res
     pool, k = shard['pool'], shard['k']
     names = _names(pool, k)
     others = names[3:]
